@@ -360,6 +360,11 @@ def malformed_stream(rng, reps):
                        auth_op(rng, allow=rng.choice([None, []]), ext=field((rng.choice([None, good(hashed)]), [entry(b64u(ids[0]))])))))
         shapes.append(("auth: empty credential key", "SyntaxError",
                        auth_op(rng, allow=ids, ext=field((good(hashed), [entry(b64u(ids[0])), entry("")][::rng.choice([1, -1])])))))
+        # ... also when the allow list itself contains a descriptor with an empty id (membership alone must not admit it)
+        shapes.append(("auth: empty credential key, empty id in the allow list", "SyntaxError",
+                       auth_op(rng, allow=ids + [b""], ext=field((good(hashed), [entry(""), entry(b64u(ids[0]))][::rng.choice([1, -1])])))))
+        shapes.append(("auth: only an empty credential key, empty id in the allow list", "SyntaxError",
+                       auth_op(rng, allow=[b""] + ids, ext=field((rng.choice([None, good(hashed)]), [entry("")])))))
         shapes.append(("auth: undecodable credential key", "SyntaxError",
                        auth_op(rng, allow=ids, ext=field((good(hashed), [entry(rng.choice(["!!!!", "a", "ab=c", "éé", "AAAA AAAA"]))])))))
         shapes.append(("auth: credential key not in the allow list", "SyntaxError",
